@@ -170,13 +170,16 @@ def run_property(pid, tier, seed, repo='/repo', only_deductive=False, timeout=No
     import numpy as _np
     for cf in P.get('case_functions', []):
         cmod = importlib.import_module(cf['module'])
-        relpath, qual = cf['key'].split('::')
-        for (label, struct, *cargs) in cmod.cases(tier, _np.random.default_rng(seed)):
-            ctx.add_contracts({cf['key']: cmod.contract_for(*cargs)})
+        for case in cmod.cases(tier, _np.random.default_rng(seed)):
+            if not isinstance(case, dict):
+                (label, struct, *cargs) = case
+                case = dict(label=label, struct=struct, key=cf['key'], contracts={cf['key']: cmod.contract_for(*cargs)})
+            relpath, qual = case['key'].split('::')
+            ctx.add_contracts(case['contracts'])
             try:
-                rep = verify.verify_function(ctx, relpath, qual, struct=struct, label=label)
+                rep = verify.verify_function(ctx, relpath, qual, struct=case.get('struct'), label=case['label'])
             except Exception as e:
-                rep = dict(function=cf['key'] + ' [%s]' % label, out_of_reach='engine exception: %s' % traceback.format_exc()[-800:], hash=None)
+                rep = dict(function=case['key'] + ' [%s]' % case['label'], out_of_reach='engine exception: %s' % traceback.format_exc()[-800:], hash=None)
                 ctx.fun_reports.append(rep)
             fun_info.append(rep)
             if rep.get('out_of_reach'):
@@ -184,7 +187,7 @@ def run_property(pid, tier, seed, repo='/repo', only_deductive=False, timeout=No
                 continue
             if rep['pre_satisfiable'] != 'sat':
                 engine_errors.append('precondition of %s not shown satisfiable (%s)' % (rep['function'], rep['pre_satisfiable']))
-            if rep['canary_refuted'] is not True:
+            if rep['canary_refuted'] is not True and not (rep.get('returns') == 0 and rep.get('raises', 0) > 0):
                 engine_errors.append('canary at the exit of %s not refuted' % rep['function'])
     for f in P['functions']:
         relpath, qual = f['key'].split('::')
@@ -281,6 +284,15 @@ def run_property(pid, tier, seed, repo='/repo', only_deductive=False, timeout=No
             undecided.append(ob)
     # report
     nviol = 0
+    seen_v = set()
+    dedup = []
+    for v in violations:
+        key = (v['function'].split(' [')[0], (v['detail'].split('[', 1)[-1])[:160])
+        if key in seen_v:
+            continue
+        seen_v.add(key)
+        dedup.append(v)
+    violations = dedup
     for i, v in enumerate(violations):
         k = match_known(known, v['function'], v['detail'], v.get('args'))
         if k is not None:
